@@ -112,6 +112,20 @@ HOW = {
                   None, 'unmodelled', True),
 }
 BCAST_LEAD = {'bcast': (2,), 'bcast1': (1,), 'bcast11': (1, 1), 'bcastfn': (2,), 'bcastfn1': (1,)}
+# non-mutating operations whose mask-and-replace paths run at domain boundaries (0, negative numbers)
+NONMUT = {
+    'reciprocal': lambda q: q.reciprocal(), 'mask_where_eq': lambda q: q.mask_where_eq(0., 1.),
+    'mask_where_le': lambda q: q.mask_where_le(0., 1.), 'mask_where_ne': lambda q: q.mask_where_ne(0.),
+    'mask_where_ge': lambda q: q.mask_where_ge(0., 1.), 'mask_where_lt': lambda q: q.mask_where_lt(0.),
+    'mask_where_between': lambda q: q.mask_where_between(-1., 1., 7.), 'mask_where_outside': lambda q: q.mask_where_outside(1., 3., 7.),
+    'clip': lambda q: q.clip(1., 3.), 'sqrt': lambda q: q.sqrt(), 'log': lambda q: q.log(), 'arcsin': lambda q: q.arcsin(),
+    'arccos': lambda q: q.arccos(), 'num/q': lambda q: Scalar(5.) / q, 'q/q': lambda q: q / q, '1/q': lambda q: 1. / q,
+    'q//q': lambda q: q // q, 'q%q': lambda q: q % q, 'q/0': lambda q: q / 0., 'q**-1': lambda q: q ** -1,
+    'q**.5': lambda q: q ** 0.5, 'sign': lambda q: q.sign(), 'abs': lambda q: abs(q), 'q+q': lambda q: q + q, 'q*q': lambda q: q * q,
+    'q-1': lambda q: q - 1., 'as_all_masked': lambda q: q.as_all_masked(), 'mask_where': lambda q: q.mask_where(q == 0., 3.),
+    'remask': lambda q: q.remask(True), 'max': lambda q: q.max(), 'sum': lambda q: q.sum(), 'mean': lambda q: q.mean(),
+    'eq': lambda q: q == q, 'lt': lambda q: q < 1., 'int': lambda q: q.as_int(), 'float': lambda q: q.as_float(),
+}
 MUT_KINDS = ['setitem', 'iop', 'setunits', 'deld', 'delds', 'insd', 'insds']
 IOPS = ['+=', '-=', '*=', '/=', '//=', '%=', '&=', '|=', '^=']
 SETITEM_ARGS = ['number', 'qube', 'masked', 'array', 'bool', 'list']
@@ -268,6 +282,35 @@ class Real:
         V = self.vars
         if k == 'mk':
             return ('obj', self.build(op))
+        if k == 'mkv':
+            # an object with given numbers (domain boundaries: 0, negative, ...), shape () or shaped
+            cls = CLASSES8[op['cls']][0]
+            vals = op['vals'] if not isinstance(op['vals'], list) else np.array(op['vals'], dtype=float)
+            m = op['mask']
+            mask = (np.arange(len(op['vals'])) % 2 == 1) if m == 'A' else (m == 'T')
+            return ('obj', cls(vals, mask))
+        if k == 'mkp':
+            # constructor provenance: the caller's own NumPy arrays, each pre-frozen or not; the caller keeps both
+            cls, item = CLASSES8[op['cls']]
+            shape = tuple(op['shape'])
+            n = int(np.prod(shape + item, dtype=int))
+            vals = (np.arange(n) + 10.5).reshape(shape + item)
+            if op['cls'] == 'Matrix3':
+                vals = np.broadcast_to(np.eye(3), shape + (3, 3)).copy()
+            if op['cls'] == 'Boolean':
+                vals = (np.arange(n) % 2 == 0).reshape(shape + item)
+            vals.flags.writeable = not op['vfrozen']
+            self.users.append(vals); self.born_u.append(self.step)
+            if op['mfrozen'] is None:
+                mask = False
+            else:
+                mask = (np.arange(int(np.prod(shape, dtype=int))) % 2 == 1).reshape(shape)
+                mask.flags.writeable = not op['mfrozen']
+                self.users.append(mask); self.born_u.append(self.step)
+            return ('obj', cls(vals, mask))
+        if k == 'nm':
+            NONMUT[op['name']](V[op['v']])
+            return None
         if k == 'const':
             cname, attr = op['name'].split('.')
             return ('obj', getattr(CLASSES8[cname][0], attr))
@@ -536,6 +579,8 @@ def modelled(R, op):
     k = op['op']
     if k == 'const':
         return True
+    if k in ('mkv', 'mkp', 'nm'):
+        return False            # oracle only
     q = R.vars[op['v']] if 'v' in op and op['v'] < len(R.vars) else None
     if q is not None and q._derivs_ and any(p is not q and p._cache_.get('wod') is q for p in R.vars):
         return False        # a cached `wod` object that was given derivatives: its own cache points at itself
@@ -758,6 +803,12 @@ def _run_history(case, judge=False):
             if not twin_raises(R, op, res):
                 fails.append(('nonmutating-failed:%s:%s' % (desc, res), 'step %d: %s failed with %s only because the operand is read-only'
                               % (t, desc, res)))
+        # (4b) the inventory of non-mutating operations: a read-only operand and its writable twin fare alike
+        if k == 'nm' and op['v'] < nv and before_ro[op['v']] and res != 'ok':
+            if not twin_raises(R, op, res):
+                fails.append(('nonmutating-failed:nm:%s:%s' % (op['name'], res), 'step %d: %s on read-only %s failed with %s, '
+                              'the same call on a writable copy of the operand does not' % (t, op['name'],
+                                                                                             type(R.vars[op['v']]).__name__, res)))
         # (5)-(7) what the new object must be
         if res == 'obj' and k in ('derive', 'wod', 'clone', 'copy', 'pickle') and before_ro[op['v']]:
             src, new = R.vars[op['v']], R.vars[-1]
@@ -1190,6 +1241,40 @@ def gen_cases(rng, tier):
                           {'op': 'rawref', 'v': dv, 'mask': False}, {'op': 'write', 'u': nu, 'pos': [0]}]
                     nu += 1; dv += 1
                 cases.append({'hist': hist + w, 'kind': 'source-write:%s:%s' % (how, pname)})
+    # 2e. the inventory of non-mutating operations at domain-boundary values, on read-only operands (the oracle runs
+    #     the same call on a writable twin when one fails)
+    for vals in (0., -2., 2., [0., -1., 2.], [0.5, 0., 4.]):
+        for mask in (('F', 'T', 'A') if isinstance(vals, list) else ('F', 'T')):
+            for route in ([{'op': 'asro', 'v': 0, 'rec': 'default'}], [{'op': 'copy', 'v': 0, 'rec': True, 'ro': True}],
+                          []):
+                v = 1 if route and route[0]['op'] == 'copy' else 0
+                names = sorted(NONMUT)
+                for i0 in range(0, len(names), 13):
+                    cases.append({'hist': [{'op': 'mkv', 'cls': 'Scalar', 'vals': vals, 'mask': mask}] + route +
+                                          [{'op': 'nm', 'v': v, 'name': n} for n in names[i0:i0 + 13]],
+                                  'kind': 'nonmutating-inventory'})
+    # 2f. constructor provenance: the caller's values / mask arrays pre-frozen or not, independently, for every class;
+    #     then the flags of values, mask and slices, and direct writes through the caller's arrays, the object's arrays and
+    #     the arrays of a slice
+    for cls in CLASSES8:
+        for shape in ([3], [2, 2]):
+            for vfrozen in (False, True):
+                for mfrozen in (None, False, True):
+                    nu = 1 + (mfrozen is not None)
+                    h = [{'op': 'mkp', 'cls': cls, 'shape': shape, 'vfrozen': vfrozen, 'mfrozen': mfrozen},
+                         {'op': 'derive', 'v': 0, 'how': 'i0' if len(shape) == 2 else 'tail', 'rec': True},
+                         {'op': 'write', 'u': 0, 'pos': [0]}]
+                    if mfrozen is not None:
+                        h += [{'op': 'write', 'u': 1, 'pos': [0]}, {'op': 'rawref', 'v': 0, 'mask': True},
+                              {'op': 'write', 'u': nu, 'pos': [1]}, {'op': 'rawref', 'v': 1, 'mask': True},
+                              {'op': 'write', 'u': nu + 1, 'pos': [0]}]
+                        nu += 2
+                    h += [{'op': 'rawref', 'v': 1, 'mask': False}, {'op': 'write', 'u': nu, 'pos': [0]},
+                          {'op': 'asro', 'v': 0, 'rec': 'default'}, {'op': 'write', 'u': 0, 'pos': [1]}]
+                    if mfrozen is not None:
+                        h += [{'op': 'write', 'u': 1, 'pos': [1]}]
+                    h += [{'op': 'setitem', 'v': 0, 'index': 'i0', 'arg': 'number'}]
+                    cases.append({'hist': h, 'kind': 'provenance:' + cls})
     # 2c. pickle round trips: every mask kind x with / without derivatives x every route to read-only, then the flags of
     #     every array of the result and of its derivatives are looked at, and each of them is written through directly
     PP = []
